@@ -195,9 +195,14 @@ class RemoteProxy(BaseProxy):
     async def stop(self) -> None:
         try:
             await asyncio.wait_for(self._channel.send(["stop", [], {}]), 0.1)
-        except (asyncio.TimeoutError, asyncio.IncompleteReadError):
+        except (asyncio.TimeoutError, asyncio.IncompleteReadError, ConnectionError):
+            # (The simulator may already have closed or reset the
+            # connection; the other simulators must still be stopped.)
             pass
-        await self._channel.close()
+        try:
+            await self._channel.close()
+        except ConnectionError:
+            pass
         await self._reader_task
 
 
